@@ -215,6 +215,66 @@ def problems():
             if getattr(w, "__name__", None) != o.__name__ or getattr(w, "__doc__", None) != o.__doc__ \
                     or getattr(w, "__wrapped__", None) is not o:
                 out.append(f"{name}: wrapper does not keep name / docstring / __wrapped__ of the original")
+        # stacked decorators: each layer refers to the callable it directly wraps and goes *through* it
+        a_decos = [("traced", traced), ("cache", cache(limit=4)), ("retry", retry(limit=1)), ("throttle", throttle(limit=50, period=0.001)),
+                   ("timeout", timeout(5))]
+        s_decos = [("traced", traced), ("cache", cache(limit=4)), ("retry", retry(limit=1))]
+        for inner_name, inner in a_decos:
+            for outer_name, outer in a_decos:
+                # cache / throttle / timeout return wrapper *objects*; the other decorators accept only coroutine functions
+                # (asyncio.iscoroutinefunction is False for such objects): those stacks are outside the helpers' domain
+                if inner_name in ("cache", "throttle", "timeout") and outer_name != "timeout":
+                    continue
+                calls = []
+
+                async def counted(a: int = 1) -> int:
+                    """counted doc"""
+                    calls.append(a)
+                    return a
+                layer1 = inner(counted)
+                layer2 = outer(layer1)
+                tag = f"{outer_name}({inner_name}(f))"
+                if getattr(layer2, "__wrapped__", None) is not layer1 or getattr(layer1, "__wrapped__", None) is not counted:
+                    out.append(f"{tag}: __wrapped__ does not refer to the callable each layer directly wraps")
+                if layer2.__name__ != "counted" or layer2.__doc__ != "counted doc":
+                    out.append(f"{tag}: name / docstring of the original lost")
+                try:
+                    async with ctx.scope("stack"):
+                        r = [await layer2(7), await layer2(7)]
+                except Exception as e:  # noqa
+                    out.append(f"{tag}: calling through both layers raised {e!r}")
+                    continue
+                want_calls = 1 if "cache" in (inner_name, outer_name) else 2
+                if r != [7, 7] or len(calls) != want_calls:
+                    out.append(f"{tag}: results {r}, the original ran {len(calls)}x (expected {want_calls}x: a layer was bypassed "
+                               f"or its configuration overwritten)")
+        for inner_name, inner in s_decos:
+            for outer_name, outer in s_decos + [("asynchronous", asynchronous), ("wrap_async", wrap_async)]:
+                if inner_name == "traced" and outer_name == "asynchronous":
+                    continue     # opening a scope needs the event loop of the calling thread: not promised off the loop thread
+                calls = []
+
+                def scounted(a: int = 1) -> int:
+                    """scounted doc"""
+                    calls.append(a)
+                    return a
+                layer1 = inner(scounted)
+                layer2 = outer(layer1)
+                tag = f"{outer_name}({inner_name}(f)) [sync]"
+                if getattr(layer2, "__wrapped__", None) is not layer1:
+                    out.append(f"{tag}: __wrapped__ does not refer to the callable it directly wraps")
+                try:
+                    async with ctx.scope("stack"):
+                        r = []
+                        for _ in range(2):
+                            v = layer2(7)
+                            r.append(await v if hasattr(v, "__await__") else v)
+                except Exception as e:  # noqa
+                    out.append(f"{tag}: calling through both layers raised {e!r}")
+                    continue
+                want_calls = 1 if "cache" in (inner_name, outer_name) else 2
+                if r != [7, 7] or len(calls) != want_calls:
+                    out.append(f"{tag}: results {r}, the original ran {len(calls)}x (expected {want_calls}x)")
         pool.shutdown(wait=False)
 
     asyncio.run(main())
